@@ -176,6 +176,16 @@ def _create(spec, kind, design, raw_crossings, inherited, own_cons, rcc, mode, a
                     "sustain": cr["sustain"], "allowed": allowed})
         if X > 0 and rcc:
             fl.empty = "complete crossing required but combinations of weight %d are excluded/impossible" % X
+        if rcc:
+            # a crossed transition/window level that no argument tuple produces can occur in no trial: a complete
+            # crossing (also one that is rounded up and cut) does not exist
+            for n in names:
+                if F[n]["kind"] == "derived" and S.is_complex(spec, n):
+                    made = set(F[n]["table"].values())
+                    for i, (ln, _) in enumerate(F[n]["levels"]):
+                        if i not in made:
+                            fl.empty = fl.empty or ("complete crossing required but level %s of %s is produced by "
+                                                    "no argument tuple" % (ln, n))
         if W - X <= 0:
             fl.und_T = fl.und_T or "crossing %s has no allowed combination" % (names,)
         for (ef, el) in excl:
